@@ -54,6 +54,30 @@ def build_cases(ctx, n):
     cases = list(valid)
     for c in valid:
         cases += E.tamper(c, rng, valid)
+    # always present: reference-made JWEs whose RSA-encrypted key begins with a zero octet (corpus/rsa_zero_led_encrypted_keys.json,
+    # made by tools/gen_zero_led_eks.py with the corpus key). As produced they decrypt; with the zero octet(s) cut off - the same
+    # integer, shorter than the modulus - or a zero octet added in front, the encrypted key is not the one that was sent and the
+    # token is refused (RFC 8017 7.1.2 / 7.2.2 step 1)
+    from pathlib import Path
+    data = json.loads((Path(__file__).resolve().parent.parent.parent / "corpus" / "rsa_zero_led_encrypted_keys.json").read_text())
+    for _, d in sorted(data.items()):
+        ser = d["serialization"]
+        tok = d["token"].encode() if ser == "compact" else d["token"]
+        meta = {"alg": d["alg"], "enc": "A128GCM", "key": "rsa2048", "plaintext": d["plaintext"].encode(), "zip": False, "serialization": ser, "sender": None}
+        c = E.DCase(tok, K.key("rsa2048", private=True), None, note="valid", meta=meta)
+        ek = R.b64u_dec(tok.split(b".")[1] if ser == "compact" else tok["encrypted_key"].encode())
+        valid.append(c)
+        cases.append(c)
+        for note, ek2 in (("strip-leading-zero-octets-of-encrypted-key", ek.lstrip(b"\x00")), ("zero-octet-added-in-front-of-encrypted-key", b"\x00" + ek),
+                          ("leading-zero-octet-of-encrypted-key-moved-to-the-end", ek[1:] + b"\x00")):
+            if ser == "compact":
+                parts = tok.split(b".")
+                parts[1] = R.b64u(ek2)
+                v2 = b".".join(parts)
+            else:
+                v2 = copy.deepcopy(tok)
+                v2["encrypted_key"] = R.b64u(ek2).decode()
+            cases.append(E.DCase(v2, c.key, c.sender, c.reg, note, c.meta))
     return valid, cases
 
 
